@@ -305,8 +305,11 @@ func checkAny(data []byte, o readOutcome, what string) []core.Violation {
 	if o.call.alloc > allocBound(len(data)) {
 		vs = append(vs, core.V("allocation", "alloc", "%s: ReadFrom allocated %d bytes for an input of %d bytes (bound %d); input=%s", what, o.call.alloc, len(data), allocBound(len(data)), core.Trunc(core.HexStr(data), 300)))
 	}
-	if (o.err == nil) == (o.s == nil) {
-		vs = append(vs, core.V("value-xor-error", "both", "%s: ReadFrom returned value=%v err=%v", what, o.s != nil, o.err))
+	// "either an error or a file value": neither is a violation. A value handed back next to
+	// a non-nil error is an error result (Go readers commonly return what they had) and is
+	// not looked at.
+	if o.err == nil && o.s == nil {
+		vs = append(vs, core.V("value-xor-error", "neither", "%s: ReadFrom returned neither a value nor an error", what))
 	}
 	return vs
 }
